@@ -35,10 +35,13 @@ struct subject
     virtual std::size_t figure() = 0;                          // a capacity figure that must travel with the memory
     virtual bool     handles_die_on_assign() { return true; }
     virtual bool     lifo_release() { return false; }
+    virtual const void* tracker_addr() { return nullptr; }   // deeply tracked types: the tracker inside this object ...
+    virtual const void* deep_ptr() { return nullptr; }        // ... and the tracker the block source deep inside reports to
     virtual bool     is_source() { return false; }      // block sources hand their blocks to the caller, who must return them first
 };
 
 template <class T> struct ops;   // per type: make(slot), take, give, figure
+template <class T> struct deep { static const void* own(T&) { return nullptr; } static const void* ptr(T&) { return nullptr; } };
 // every object is built over its own, distinguishable upstream source (tag = slot + 1): after a move, a move assignment or a
 // swap each block must go back through the source it came from (the instrumented upstream reports U!foreign otherwise)
 static int g_make_slot = 0;
@@ -58,6 +61,8 @@ struct subject_impl : subject
     std::size_t figure() override { return ops<T>::figure(*obj); }
     bool     lifo_release() override { return ops<T>::lifo; }
     bool     is_source() override { return ops<T>::source; }
+    const void* tracker_addr() override { return deep<T>::own(*obj); }
+    const void* deep_ptr() override { return deep<T>::ptr(*obj); }
 };
 
 // ---- pools
@@ -144,6 +149,11 @@ template <> struct ops<tracked_stack_t>
     static void give(T&, handle&) {}
     static std::size_t figure(T& t) { verify("capacity query"); return t.get_allocator().capacity_left(); }
 };
+template <> struct deep<tracked_stack_t>
+{
+    static const void* own(tracked_stack_t& t) { return &t.get_tracker(); }
+    static const void* ptr(tracked_stack_t& t) { return t.get_allocator().arena_.get_allocator().tracker_; }
+};
 // ---- arenas: the handle is a block
 template <class BA, bool C> struct ops<memory_arena<BA, C>>
 {
@@ -212,7 +222,13 @@ static int run(bool high, const std::string& header)
     char state[4] = {'E', 'E', 'E', 'E'};
     std::vector<handle> hs; unsigned next_pat = 7;
     auto slotmem = [&]() { return high ? U.place_high(sizeof(T) + 64) : U.place(sizeof(T) + 64); };
-    auto status = [&]() { std::string s; for (int k = 0; k < 4; ++k) { char b[48]; std::snprintf(b, sizeof b, " %d:%c:%zu", k, state[k], state[k] == 'L' ? slots[k]->figure() : std::size_t(0)); s += b; } return s; };
+    auto status = [&]() { std::string s; for (int k = 0; k < 4; ++k) { char b[48]; std::snprintf(b, sizeof b, " %d:%c:%zu", k, state[k], state[k] == 'L' ? slots[k]->figure() : std::size_t(0)); s += b;
+            if (state[k] != 'E' && slots[k]->tracker_addr())
+            {   // fourth field: the slot whose tracker the deep pointer of this object refers to (n: null, x: no object's tracker)
+                const void* d = slots[k]->deep_ptr(); std::string tp = d ? "x" : "n";
+                for (int j = 0; j < 4; ++j) if (d && state[j] != 'E' && slots[j]->tracker_addr() == d) tp = std::to_string(j);
+                s += ":" + tp;
+            } } return s; };
     auto check = [&](const char* when) {
         for (auto& h : hs) { auto q = static_cast<unsigned char*>(h.p); for (std::size_t i = 0; i < h.size; ++i) if (q[i] != (unsigned char)(h.pat + 5 * i)) { std::printf("corrupt owner=%d at=%zu %s\n", h.owner, i, when); break; } }
     };
